@@ -1517,6 +1517,36 @@ def fmt_value(m, kind, x, f):
             for it in imp["items"]:
                 if it["name"] == "fmt" and it["path"] in m.facts.bodies:
                     return m.call_path(it["path"], [x, f])
+    if isinstance(x, Adt) and kind == "debug" and any(
+            imp.get("derived") for imp in m.facts.impls_of(trait="std::fmt::Debug", self_adt=x.path)):
+        # #[derive(Debug)]: `Name`, `Name(a, b)` or `Name { f: a }`
+        f.out.append(x.variant)
+        names = list(x.fields)
+        if names:
+            positional = all(n.isdigit() for n in names)
+            f.out.append("(" if positional else " { ")
+            for i, n in enumerate(names):
+                if i:
+                    f.out.append(", ")
+                if not positional:
+                    f.out.append(n + ": ")
+                fmt_value(m, "debug", x.fields[n], f)
+            f.out.append(")" if positional else " }")
+        return FMT_OK
+    if isinstance(x, PyVec) and kind == "debug":
+        f.out.append("[")
+        for i, it in enumerate(x.items):
+            if i:
+                f.out.append(", ")
+            fmt_value(m, "debug", it, f)
+        f.out.append("]")
+        return FMT_OK
+    if isinstance(x, Adt) and "inner" in x.fields and hasattr(x.fields["inner"], "name"):
+        f.out.append(str(x.fields["inner"].name))       # a foreign key type modelled by a token
+        return FMT_OK
+    if hasattr(x, "kind") and hasattr(x, "name") and hasattr(x, "length"):
+        f.out.append(str(x.name))                        # opaque byte token
+        return FMT_OK
     raise Unsupported("formatting (%s) of %r" % (kind, x))
 
 
@@ -2128,3 +2158,22 @@ def _to_string(m, a, c):
     if not all(isinstance(x, str) for x in f.out):
         return Term("to_string", v)
     return "".join(f.out)
+
+
+@reg("<T as std::convert::TryInto<U>>::try_into", "std::convert::TryInto::try_into")
+def _try_into(m, a, c):
+    targs = c.get("targs") or []
+    v = deref(a[0])
+    tgt = targs[1] if len(targs) > 1 else (c.get("self_ty") or "")
+    if tgt.startswith("["):
+        c2 = dict(c)
+        c2["targs"] = [tgt]
+        c2["self_ty"] = tgt
+        c2["cargs"] = []
+        return _array_try_from(m, a, c2)
+    if isinstance(v, int) and not isinstance(v, bool) and tgt in INT_RANGES:
+        lo, hi = INT_RANGES[tgt]
+        return ok(v) if lo <= v <= hi else err(Term("TryFromIntError", v))
+    if isinstance(v, Term):
+        return Term("try_into", v, tgt)
+    return NOT_HANDLED
